@@ -162,8 +162,13 @@ func c03Gen(r *kit.Rand, idx int, tiny []byte) c03Case {
 				f = Fault{Kind: kit.Pick(r, []string{"manifest", "head", "blobget"}), Nth: r.Range(1, 2), Act: "challenge", Str: "GOOD"}
 				if r.Chance(1, 2) {
 					// ... and the token endpoint misbehaves in turn
-					tf := Fault{Kind: "token", Nth: 1, Act: kit.Pick(r, []string{"status", "garbage", "reset", "garbage"}), Code: kit.Pick(r, []int{500, 401, 403, 404}),
+					tf := Fault{Kind: "token", Nth: 1, Act: kit.Pick(r, []string{"status", "garbage", "reset", "garbage", "challenge"}), Code: kit.Pick(r, []int{500, 401, 403, 404}),
 						Str: kit.Pick(r, []string{"", "{", "null", "[]", `{"token":5}`, `{"token":""}`, `{"token":null}`, `{"access_token":"x"}`, "<html>", `"token"`, `{"token":"` + strings.Repeat("t", 70000) + `"}`})}
+					if tf.Act == "challenge" {
+						// the token endpoint itself demands a token (a proxy that puts /token behind the same rule
+						// as /v2/): every token request is answered 401 with a challenge that leads back to it
+						tf.Nth, tf.Str = 0, "GOOD"
+					}
 					at.Faults = append(at.Faults, tf)
 				}
 			case 3:
@@ -227,7 +232,11 @@ func c03Gen(r *kit.Rand, idx int, tiny []byte) c03Case {
 				at.Resume = rs
 			}
 		}
-		if idx%48 == 5 && a == 0 {
+		if idx%48 == 29 && a == 0 {
+			// the registry asks for a token and the token endpoint asks for one in turn, for ever
+			at.Resume = nil
+			at.Faults = []Fault{{Kind: kit.Pick(r, []string{"manifest", "manifest", "head", "blobget"}), Nth: 1, Act: "challenge", Str: "GOOD"}, {Kind: "token", Nth: 0, Act: "challenge", Str: "GOOD"}}
+		} else if idx%48 == 5 && a == 0 {
 			// CDN outage: every CDN request of this attempt fails, so one part uses up all of the client's
 			// retries (1+2+4+8+16 s of its own back-off) and the pull must end with an error, not a crash
 			at.Stream, at.Disconnect, at.Resume = r.Chance(1, 2), 0, nil
@@ -377,6 +386,11 @@ func c03Run(bin, work string, c *c03Case, rep *kit.Report) (vs []c03Viol, inconc
 			if f.Act == "stall-mid" && strings.Contains(srv.Log(), "stalled; retrying") {
 				rep.Count("stall_noticed_and_part_retried_by_client", 1)
 			}
+		}
+		// ---- a pull asks for a token when a request was answered 401, not without bound
+		if tok, other := reg.Count("token"), reg.Count("manifest")+reg.Count("head")+reg.Count("blobget")+reg.Count("cdn"); tok > 20+3*other {
+			vs = append(vs, c03Viol{"c03:unbounded-token-requests", fmt.Sprintf("attempt %d: %d token requests for %d registry/CDN requests (the fake token endpoint cuts a client off after 3000): the pull does not end on its own on registry behaviour %+v", ai, tok, other, plan)})
+			return vs, ""
 		}
 		// ---- always: the server survives
 		if !srv.Alive() {
